@@ -660,6 +660,10 @@ func (b *BlockCtx) buildV1(t AbsTx) (types.Transaction, error) {
 			uc = s.K.UC("X")
 			owner = "X"
 		}
+		if strings.HasPrefix(in.Auth, "as:") { // the "confuse" defect: the id is not a siacoin output's; sign as the stated owner
+			owner = in.Auth[3:]
+			uc = s.K.UC(owner)
+		}
 		txn.SiacoinInputs = append(txn.SiacoinInputs, types.SiacoinInput{ParentID: id, UnlockConditions: uc})
 		signers = append(signers, signer{types.Hash256(id), owner, in.Auth})
 	}
